@@ -392,13 +392,11 @@ def diff_single_outputs(a, b, path="/cells/*/outputs/*", config=None):
     if a.output_type in ("execute_result", "display_data"):
         di = MappingDiffBuilder()
 
-        # Separate data from output during diffing:
-        tmp_data = a.pop('data')
-        a_conj = copy.deepcopy(a)  # Output without data
-        a.data = tmp_data          # Restore output
-        tmp_data = b.pop('data')
-        b_conj = copy.deepcopy(b)
-        b.data = tmp_data
+        # Separate data from output during diffing. The outputs themselves
+        # are left alone: popping and restoring 'data' moved the key to the
+        # end and lost it altogether if the copy failed
+        a_conj = copy.deepcopy({k: v for k, v in a.items() if k != 'data'})
+        b_conj = copy.deepcopy({k: v for k, v in b.items() if k != 'data'})
         # Only diff outputs without data:
         dd_conj = diff(a_conj, b_conj, path=path, config=config)
         if dd_conj:
